@@ -69,12 +69,12 @@ THOROUGH = [
      {"C01", "C03", "C04", "C11", "C12", "C18"}, False, None),
     ("n4stamp", "explore", ["exh", "n=4", "filter=eph2", "cmp=both", "levels=f1/dbf1/-", "paths=2", "steps=0"], {"C15", "C16"}, False, None),
     ("n4flaky", "explore", ["exh", "n=4", "filter=eph2", "cmp=both", "levels=-/bdk/-", "paths=2", "steps=0"], {"C16"}, False, None),
-    ("eph5", "explore", ["exh", "n=5", "filter=eph5", "stride=7", "levels=-/dbf1/-", "paths=2", "steps=0"],
+    ("eph5", "explore", ["exh", "n=5", "filter=eph5", "stride=11", "levels=-/dbf1/-", "paths=2", "steps=0"],
      TRACEP - {"C14", "C15", "C16", "C20"}, False, None),
-    ("rnd6", "explore", ["random", "n=6", "count=200", "levels=f1/dbnef1/db", "paths=3", "steps=0"], TRACEP - {"C15", "C16", "C20"}, False, None),
-    ("names3", "explore", ["exh", "n=3", "conv=names", "multi=1", "levels=f1/dbnerf1a/dbrx", "steps=0"],
+    ("rnd6", "explore", ["random", "n=6", "count=100", "levels=f1/dbnef1/db", "paths=3", "steps=0"], TRACEP - {"C15", "C16", "C20"}, False, None),
+    ("names3", "explore", ["exh", "n=3", "conv=names", "multi=1", "levels=f1/dbnerf1/dbrx", "steps=0"],
      {"C01", "C03", "C04", "C06", "C08", "C09", "C11", "C12", "C18"}, True, None),
-    ("names4", "explore", ["exh", "n=4", "conv=names", "multi=1", "filter=eph2", "stride=5", "levels=-/dbrf1/rx", "paths=2", "steps=0"],
+    ("names4", "explore", ["exh", "n=4", "conv=names", "multi=1", "filter=eph2", "stride=9", "levels=-/dbrf1/rx", "paths=2", "steps=0"],
      {"C01", "C03", "C04", "C09", "C18"}, False, None),
     ("shapes", "explore", ["shapes", "levels=f1a/dbf1a/dbf1", "steps=0", "maxstates=3000"],
      TRACEP - {"C14", "C15", "C16", "C20"}, False, None),
